@@ -24,7 +24,8 @@ Tree ==
        MSec(<< PSec(NoTitle, << Leaf(<<48>>), TSec(<< PSec(<<97>>, <<Leaf(<<49>>)>>), PSec(<<98>>, <<Leaf(<<50>>)>>) >>) >>),
                PSec(NoTitle, << Leaf(<<51>>), TSec(<< PSec(<<97>>, <<Leaf(<<52>>)>>) >>) >>) >>),
        TSec(<< PSec(<<97>>, <<Leaf(<<53>>)>>), PSec(<<97, 39, 98>>, <<Leaf(<<54>>)>>),
-               PSec(<<49>>, <<Leaf(<<55>>)>>), PSec(<<109>>, <<Leaf(<<56>>)>>), PSec(<<97, 92>>, <<Leaf(<<57>>)>>) >>),
+               PSec(<<49>>, <<Leaf(<<55>>)>>), PSec(<<109>>, <<Leaf(<<56>>)>>), PSec(<<97, 92>>, <<Leaf(<<57>>)>>),
+               PSec(<<97, 61, 98>>, <<Leaf(<<58>>)>>) >>),        \* a title containing '=': "a=b"
        CSec(<< PSec(NoTitle, << Leaf(<<120>>), MSec(<< PSec(NoTitle, <<Leaf(<<121>>)>>) >>) >>) >>) >>)
 
 AlphaSet == {115, 109, 116, 99, cBar, cEq, cQ, cBsl, 48, 49, 57, 97, 98}
@@ -62,7 +63,11 @@ DupAt(p, k)  == SubSeq(p, 1, k) \o SubSeq(p, k, Len(p))
 (* the qualifier after the '=' at position k removed (up to the next '|' or the end) *)
 EmptyQual(p, k) == LET e == Cspn(p, k + 1, {cBar}) IN SubSeq(p, 1, k) \o SubSeq(p, e, Len(p))
 JunkQual(p, k)  == LET e == Cspn(p, k + 1, {cBar}) IN SubSeq(p, 1, e - 1) \o <<120>> \o SubSeq(p, e, Len(p))
+(* a backslash put in front of an ordinary character inside a quoted qualifier (only \' and \\ are escapes) *)
+BslAt(p, k) == SubSeq(p, 1, k) \o <<cBsl>> \o SubSeq(p, k + 1, Len(p))
 Broken(p) ==
+  {BslAt(p, k) : k \in {k \in 2..(Len(p) - 1) : p[k] = cQ /\ p[k-1] = cEq /\ p[k+1] \notin {cQ, cBsl}}} \cup
+  {BslAt(p, k + 1) : k \in {k \in 2..(Len(p) - 2) : p[k] = cQ /\ p[k-1] = cEq /\ p[k+1] \notin {cQ, cBsl} /\ p[k+2] \notin {cQ, cBsl}}} \cup
   {EmptyQual(p, k) : k \in {k \in 1..Len(p) : p[k] = cEq}} \cup
   {JunkQual(p, k) : k \in {k \in 1..Len(p) : p[k] = cEq}} \cup
   {DropAt(p, k) : k \in {k \in 1..Len(p) : p[k] \in {cBar, cEq, cQ, cBsl}}} \cup
